@@ -21,11 +21,10 @@ struct NodeEnv {
         Fx r; for (size_t i = mark; i < w.evs.size(); i++) { const Ev &e = w.evs[i]; if (e.slot != slot) continue; r.evs.push_back(e); if (e.kind == EV_TX || e.kind == EV_TXFAIL) { r.tx.push_back(e.f); cov.frames_out++; } else if (e.kind == EV_CANRECEIVE) r.appRx++; }
         return r;
     }
-    Fx deliver(const Frame &f) { size_t m = w.mark(); w.rx(slot, f); w.canproc(slot); cov.frames_in++; safety(); return collect(m); }
+    Fx deliver(const Frame &f) { size_t m = w.mark(); w.rx(slot, f); w.canproc(slot); cov.frames_in++; safety(); if (S().txInOp > 127 + CO_TPDO_N + 2) fail("tx-bound", "more than the bounded number of frames while processing one received frame"); return collect(m); }
     void safety() {
         if (w.fatal) fail("fatal", "fatal error callback");
         if (S().lockUnbalanced) fail("lock/unbalanced", "unlock without lock");
-        if (S().txInOp > 127 + CO_TPDO_N + 2) fail("tx-bound", "more than the bounded number of frames in one processing step");
     }
     // expedited SDO access through server 0 (ids 600h/580h + node id); returns abort code, 0 = confirmed, 0xFFFFFFFF = no/invalid response
     uint32_t sdoWrite(uint16_t idx, uint8_t sub, uint32_t val, int width, std::vector<Frame> *other = nullptr) {
